@@ -93,6 +93,8 @@ def main():
                             pass
                 results[p] = {"exit": rc, "lines": [l[:300] for l in lines], "what": (replay_what or "")[:400],
                               "wall_s": round(time.time() - t0, 1)}
+                if rc not in (0, 1):
+                    results[p]["tail"] = out[-1500:]
         finally:
             shutil.rmtree(f"/tmp/evalev_{sid}", ignore_errors=True)
             if in_wt:
